@@ -93,7 +93,10 @@ class C18(World):
             p_fail=sw.choice([0, 0, 0.1]),
             w_build=sw.choice([1, 3]),
             w_resolve=sw.choice([0, 1, 2]),
+            unit_systems=[sw.choice(["EUR", "EUR", "SI", "KSI"]) for _ in range(2)],
         )
+        if self.tier == "thorough" and sw.random() < 0.3:
+            swarm["length"] = sw.choice([24, 40])
 
         def gen_solve():
             fl = args.choice(MAINSTREAM) if swarm["mainstream"] else args.choice(fluids())
@@ -200,7 +203,8 @@ class C18(World):
             seen_v.add((check, site))
             viol.append(dict(check=check, site=site, step=step, detail=detail))
 
-        objs = [SimpleHeatPumpCycle() for _ in range(n_obj)]
+        usys = trace.get("swarm", {}).get("unit_systems") or ["EUR", "EUR"]
+        objs = [SimpleHeatPumpCycle(usys[j % len(usys)]) for j in range(n_obj)]
         # per object: solved-state record kept by the simulator (reference model)
         M = [dict(solved=False, args=None, regime="", metrics=None, first={}, pattern=[], judged=False) for _ in range(n_obj)]
 
@@ -458,7 +462,7 @@ class C18(World):
                         probe("failed_solve_leaves_unsolved")
             elif op == "renew":
                 # a new cycle object constructed while others are already solved (as the targeting code does)
-                objs[o] = c = SimpleHeatPumpCycle()
+                objs[o] = c = SimpleHeatPumpCycle(usys[(o + 1) % len(usys)])
                 M[o] = m = dict(solved=False, args=None, regime="", metrics=None, first={}, pattern=[], judged=False)
                 probe("object_constructed_after_a_solve")
                 outcome = "ok"
